@@ -1366,6 +1366,17 @@ class Module(ABC):
             key = parameter["key"]
             inds = parameter["indices"]
             set_param = parameter["val"]
+
+            # Synaptic states are stored per synapse type. As in
+            # `get_all_parameters()`, translate the global edge indices to the
+            # indices within the synapse type.
+            if key in self.base.synapse_state_names:
+                synapse_inds = self.base.edges.groupby("type").rank()[
+                    "global_edge_index"
+                ]
+                synapse_inds = (synapse_inds.astype(int) - 1).to_numpy()
+                inds = synapse_inds[inds]
+
             if key in states:  # Only initial states, not parameters.
                 # `inds` is of shape `(num_params, num_comps_per_param)`.
                 # `set_param` is of shape `(num_params,)`
